@@ -17,7 +17,7 @@ SPEC = {
                   "a sync interrupted and resumed by a second applier; postConsuming -> DownloadSnapshot, RecoverSnapshot2, SaveForcedVersion, AtomicSwitchToPreliminary and its clean-up goroutine), "
                   "fed through the real wire path by a real server handler (all certificates, or certificates kept as a consensus follower keeps them so that headers are applied in deferred groups). "
                   "Per plan one never-crashed run records class and phase (from the call stack) of every write; crash points are every write of the short phases (download, import, forced version, switch), "
-                  "both sides of every phase boundary, every distinct (phase, class before, class) transition, a few clean-up deletes and PRNG-chosen others (60 per plan quick, 150 thorough). After each crash: "
+                  "both sides of every phase boundary, every distinct (phase, class before, class) transition, a few clean-up deletes and PRNG-chosen others (60 per plan quick, 110 thorough). After each crash: "
                   "start-up on the surviving database neither fails nor panics, head roots equal the loaded roots, the head is the canonical block at the snapshot height or at the pre-sync height (or a retained "
                   "height below); then the node completes - 3 of 4 times by resuming the real fast sync with a new handler and applier (the real preConsuming continues from the preliminary head or drops the "
                   "preliminaries; a failed Load is followed by a second one as in Downloader.SyncBlockchain), otherwise by full-syncing the canonical blocks -, accepts the following canonical blocks and "
@@ -30,7 +30,7 @@ SPEC = {
     "rule": "case = one crash point (scenario, block, write index k) followed by restart + re-feed; distinct_nontrivial = distinct (scenario, phase, write index, block) tuples; "
             "job realsync-crash: case = one crash point (plan, write index k) of a real fast sync followed by restart + completion + comparison; distinct = distinct (world, plan, phase, write class, k)",
     "jobs": [Job("crash", "verifsim", "^TestVerifC09$", shards=(8, 16), timeout=(900, 7200)),
-             Job("realsync-crash", "protocol", "^TestVerifC09RealFastSync$", shards=(8, 12), timeout=(900, 5400), extra_tags="c09")],
+             Job("realsync-crash", "protocol", "^TestVerifC09RealFastSync$", shards=(8, 12), timeout=(900, 7200), extra_tags="c09")],
     "floors": {"crash_points": (800, 8000), "phase:batch:stateTree": 100, "phase:batch:identityTree": 100, "phase:set:head": 60,
                "phase:set:header-or-canonical": 100, "phase:set:txIndex": 30, "scenario:ForkSwitch(ResetTo+ApplyFork)": 100,
                "scenario:AddBlock(validation-finished)": 10, "scenario:AddBlock(identity-update)": 20, "scenario:AddBlock(snapshot)": 20,
